@@ -149,7 +149,7 @@ def value_hook(ctx, findings):
         else:
             return
         ctx.count("monitor:returned value compared with the board")
-        if res != exp or type(res) is not type(exp):
+        if res != exp or not isinstance(res, type(exp)):      # a subclass (named tuple, IntEnum) is the same value
             findings.append({"prop": "C05", "step": i, "method": name,
                              "kind": "value returned does not belong to this request / board state",
                              "returned": repr(res), "expected": repr(exp)})
@@ -248,6 +248,9 @@ def run(ctx):
     for _ in range(ctx.budget(30000, 200000)):
         if not ctx.alive():
             break
+        if rng.random() < 0.005:
+            from .. import noise
+            noise.burst(ctx, rng, exclude=('versions', 'discovery'))
         classes, step = gen_framing(rng)
         scen = {"board": {"version": "3.0.2"}, "setup": "attach", "steps": [step]}
         ctx.sample(scen, tag=classes[1], per_tag=1)
@@ -262,6 +265,9 @@ def run(ctx):
     for _ in range(ctx.budget(5000, 60000)):
         if not ctx.alive():
             break
+        if rng.random() < 0.03:
+            from .. import noise
+            noise.burst(ctx, rng, exclude=('versions', 'discovery'))
         history(ctx, rng)
     seen = ctx.extra.pop("distinct_method_fault_position")
     ctx.extra["distinct_method_fault_position_triples"] = len(seen)
@@ -274,6 +280,7 @@ def run(ctx):
         ctx.need(cls, 40)
     ctx.need("systematic", 300 if ctx.nshards == 1 else 30)
     ctx.need("history:delayed-conforming", 300)
+    ctx.need("history: after calls to other library functions", 150)
     ctx.need("monitor:command/query invocations checked", 5000)
     ctx.need("monitor:returned value compared with the board", 100)
     if ctx.nshards == 1:
